@@ -1451,6 +1451,165 @@ static void run_manh(bool thorough) {
                               thorough ? " and growing 4,4,8,8,12,12,16" : "", thorough ? "0, +1.5, -1.5, two elements" : "0, two elements", thorough ? "flush, extended(1,0.5)" : "flush", h), ok, (int64_t)sps.size() * (int64_t)ocs.size() * (int64_t)ends.size() * 2);
 }
 
+// ----------------------------------------------------------------------- OASIS PATH records far from the origin
+// Library unit 1e-6, precision 1e-12: one database unit = 1e-6 user units, so 2^31 database units = 2147.48 user units.
+// Simple FlexPaths (offset 0 and two elements +1.5/-1.5) and simple RobustPaths (one element) of a few shapes
+// (alternating Manhattan with odd and even step counts, Manhattan with a repeated direction, octangular, general,
+// single step) start at (+-2500, +-3100); three more start near the origin and consist of one step of 3000 user
+// units (horizontal, diagonal, general), so that a single 1-/2-/3-/g-delta exceeds 2^31.  OASIS only: GDSII
+// coordinates are 32-bit database units and cannot hold these values at this precision.  The re-read record must
+// have the source's centre line (each record point within 1.5 database units of the source centre line and vice
+// versa; FlexPath: point for point), the same half width and end code and, for the short shapes, the region of
+// the source to_polygons.
+struct FarShape { const char* name; std::vector<V> rel; bool is_long; };
+static std::vector<FarShape> far_shapes() {
+    return {
+        {"manhattan-alternating-3", {{0, 0}, {8, 0}, {8, 8}, {16, 8}}, false},
+        {"manhattan-alternating-4", {{0, 0}, {0, 8}, {-8, 8}, {-8, 16}, {-16, 16}}, false},
+        {"manhattan-repeated", {{0, 0}, {8, 0}, {16, 0}, {16, -8}}, false},
+        {"octangular", {{0, 0}, {8, 8}, {16, 8}, {24, 0}}, false},
+        {"general", {{0, 0}, {8, 4}, {12, 12}, {4, 16}}, false},
+        {"single-step", {{0, 0}, {-8, 4}}, false},
+        {"long-horizontal-delta", {{1, 2}, {3001, 2}}, true},
+        {"long-diagonal-delta", {{1, 2}, {-2999, 3002}}, true},
+        {"long-general-delta", {{1, 2}, {3001, -1498}}, true},
+    };
+}
+static void run_far_member(int shape_i, int origin_i, int cls, int ocfg, bool verbose) {
+    const double FGRID = 1e-6;
+    const FarShape sh = far_shapes()[shape_i];
+    const V org = sh.is_long ? V{0, 0} : V{(origin_i & 1) ? -2500.0 : 2500.0, (origin_i & 2) ? -3100.0 : 3100.0};
+    std::vector<V> sp;
+    for (auto& q : sh.rel) sp.push_back(q + org);
+    const int n = (int)sp.size(), nel = cls == 1 ? 1 : group_nel(ocfg);
+    const char* cname = cls == 1 ? "RobustPath" : "FlexPath";
+    auto mjson = [&]() { return jobj({{"class", jstr(cname)}, {"shape", jstr(sh.name)}, {"spine", jpts(sp)}, {"width", jstr("1")}, {"offsets", jstr(cls == 1 ? "0" : OFF_NAME[ocfg])}, {"end", jstr("flush")}, {"unit", jnum(1e-6)}, {"precision", jnum(1e-12)}, {"simple_path", jbool(true)}}); };
+    std::string replay = fmt("sub=pathfar shape=%d origin=%d cls=%d oc=%d", shape_i, origin_i, cls, ocfg);
+    auto tags = [&](int el, const char* what) {
+        JFields t = {{"format", jstr("oas")}, {"far", jbool(true)}, {"class", jstr(cname)}, {"shape", jstr(sh.name)}, {"origin_quadrant", jint(sh.is_long ? -1 : origin_i)}, {"elements", jint(nel)}, {"element", jint(el)}, {"what", jstr(what)}};
+        return t;
+    };
+    auto vname = [&](const char* what) { return fmt("far:%s:%s:%s", what, cname, sh.name); };
+    // expected centre lines and source polygons
+    std::vector<std::vector<V>> centre(nel), spoly(nel);
+    Library lib = {};
+    lib.init("LIB", 1e-6, 1e-12);
+    Cell* cell = (Cell*)allocate_clear(sizeof(Cell));
+    cell->name = copy_string("C", NULL);
+    lib.cell_array.append(cell);
+    bool src_ok = true;
+    if (cls == 0) {
+        for (int el = 0; el < nel; el++) {
+            c07::ElementInput in;
+            in.spine = sp;
+            in.hw.assign(n, 0.5);
+            in.off.assign(n, group_off(ocfg, el));
+            in.ends = end_variants(0.5, 0.5);
+            centre[el] = c07::build(in).C;
+        }
+        FlexPath* fp = make_path(sp, 0, ocfg, 0, c07::J_NATURAL, 0, true);
+        Array<Polygon*> res = {};
+        src_ok = fp->to_polygons(false, 0, res) == ErrorCode::NoError && res.count == (uint64_t)nel;
+        for (int el = 0; src_ok && el < nel; el++)
+            for (uint64_t k = 0; k < res[el]->point_array.count; k++) spoly[el].push_back(V{res[el]->point_array[k].x, res[el]->point_array[k].y});
+        for (uint64_t k = 0; k < res.count; k++) { res[k]->clear(); free_allocation(res[k]); }
+        res.clear();
+        cell->flexpath_array.append(fp);
+    } else {
+        centre[0] = sp;
+        RobustPath* rp = (RobustPath*)allocate_clear(sizeof(RobustPath));
+        rp->init(Vec2{sp[0].x, sp[0].y}, 1, 1.0, 0.0, TOL, 1000, make_tag(1, 0));
+        rp->simple_path = true;
+        rp->scale_width = true;
+        for (int i = 1; i < n; i++) rp->segment(Vec2{sp[i].x, sp[i].y}, NULL, NULL, false);
+        Array<Polygon*> res = {};
+        src_ok = rp->to_polygons(false, 0, res) == ErrorCode::NoError && res.count == 1;
+        if (src_ok) for (uint64_t k = 0; k < res[0]->point_array.count; k++) spoly[0].push_back(V{res[0]->point_array[k].x, res[0]->point_array[k].y});
+        for (uint64_t k = 0; k < res.count; k++) { res[k]->clear(); free_allocation(res[k]); }
+        res.clear();
+        cell->robustpath_array.append(rp);
+    }
+    std::string file = R->scratch + fmt("/f%d.oas", (int)getpid());
+    ErrorCode wec = lib.write_oas(file.c_str(), 0, 0, 0);
+    lib.free_all();
+    if (!src_ok) { R->violation("path.oas", vname("no-polygon"), tags(0, "no-polygon"), mjson(), "to_polygons of the source failed", replay); unlink(file.c_str()); return; }
+    if (wec != ErrorCode::NoError) { R->violation("path.oas", vname("write-error"), tags(0, "write"), mjson(), fmt("write_oas returned %d", (int)wec), replay); unlink(file.c_str()); return; }
+    std::vector<PathRecord> recs;
+    std::string err;
+    bool ok = decode_paths(file, true, recs, err);
+    unlink(file.c_str());
+    if (!ok || recs.size() != (size_t)nel) { R->violation("path.oas", vname("record-count"), tags(0, "count"), mjson(), fmt("expected %d PATH records, re-read %zu (%s)", nel, recs.size(), err.c_str()), replay); return; }
+    for (int el = 0; el < nel; el++) {
+        const PathRecord& r = recs[el];
+        R->count("cases");
+        R->count("nontrivial");
+        R->count("path_far_records_checked");
+        if (verbose) fprintf(stderr, " %s element %d record: hw %.7f end %s centre %s\n  expected centre %s\n", cname, el, r.hw, r.end_name.c_str(), pts_str(r.pts).c_str(), pts_str(centre[el]).c_str());
+        const double ptol = 1.5 * FGRID + 1e-9;  // database grid + generous double rounding (ulp of 3e3 is 4.5e-13)
+        double worst = 0;
+        bool bad = r.pts.size() < 2;
+        if (!bad) {
+            for (auto& q : r.pts) { double d = 1e300; for (size_t t = 0; t + 1 < centre[el].size(); t++) d = std::min(d, c07::dist_seg(centre[el][t], centre[el][t + 1], q)); worst = std::max(worst, d); }
+            for (auto& q : centre[el]) { double d = 1e300; for (size_t t = 0; t + 1 < r.pts.size(); t++) d = std::min(d, c07::dist_seg(r.pts[t], r.pts[t + 1], q)); worst = std::max(worst, d); }
+            if (worst > ptol) bad = true;
+            if (c07::norm(r.pts[0] - centre[el][0]) > ptol || c07::norm(r.pts.back() - centre[el].back()) > ptol) bad = true;
+            if (cls == 0) {
+                if (r.pts.size() != centre[el].size()) bad = true;
+                for (size_t i = 0; !bad && i < r.pts.size(); i++) if (c07::norm(r.pts[i] - centre[el][i]) > ptol) bad = true;
+            }
+        }
+        if (bad) {
+            R->violation("path.oas", vname("centerline"), tags(el, "centerline"), mjson(), fmt("re-read centre line %s differs from the source centre line %s (worst distance %.6g, allowed %.3g)", pts_str(r.pts).c_str(), pts_str(centre[el]).c_str(), worst, ptol), replay);
+            continue;
+        }
+        if (fabs(r.hw - 0.5) > ptol || r.round || fabs(r.ext_s) > ptol || fabs(r.ext_e) > ptol) {
+            R->violation("path.oas", vname("width-or-end"), tags(el, "width-or-end"), mjson(), fmt("record hw %.7f end %s extensions %.6f/%.6f; written hw 0.5, flush", r.hw, r.end_name.c_str(), r.ext_s, r.ext_e), replay);
+            continue;
+        }
+        if (sh.is_long) { R->count("path_far_long_delta_records"); continue; }
+        c07::ElementInput rin;
+        rin.raw = true;
+        for (auto& q : r.pts) if (rin.spine.empty() || c07::norm(q - rin.spine.back()) > 1e-9) rin.spine.push_back(q);
+        rin.hw.assign(rin.spine.size(), r.hw);
+        rin.off.assign(rin.spine.size(), 0.0);
+        rin.ends.assign(1, c07::EndVar{false, false, 0, 0});
+        c07::Oracle ro = c07::build(rin);
+        Grid g = make_grid(ro.bx0, ro.by0, ro.bx1, ro.by1, 0.25);
+        std::vector<uint8_t> cov;
+        coverage(spoly[el], g, cov);
+        int bad_in = 0, bad_out = 0;
+        V f{0, 0};
+        for (int j = 0; j < g.ny; j++)
+            for (int i = 0; i < g.nx; i++) {
+                V q = g.at(i, j);
+                c07::Cls cl = c07::classify(ro, q, G_REC, 1);
+                bool mc = cl.mc & 1, mn = (cl.farE & 1) && (cl.farJ >> c07::J_MITER & 1), cv = cov[(size_t)j * g.nx + i];
+                if (mc && !cv) { if (!bad_in && !bad_out) f = q; bad_in++; }
+                if (mn && cv) { if (!bad_in && !bad_out) f = q; bad_out++; }
+            }
+        R->count("path_far_region_comparisons");
+        if (bad_in || bad_out) R->violation("path.oas", vname("region"), tags(el, "region"), mjson(), fmt("%d sample(s) inside the record's region not covered by the source polygon, %d covered outside it; first (%.4f,%.4f)", bad_in, bad_out, f.x, f.y), replay);
+    }
+}
+static void run_far() {
+    if (getenv("C07_FAM") && std::string("path.oas.far").find(getenv("C07_FAM")) == std::string::npos) return;  // development aid
+    struct FM { int shape, origin, cls, oc; };
+    std::vector<FM> ms;
+    std::vector<FarShape> shapes = far_shapes();
+    for (int sh = 0; sh < (int)shapes.size(); sh++)
+        for (int org = 0; org < (shapes[sh].is_long ? 1 : 4); org++) {
+            ms.push_back({sh, org, 0, 0});
+            ms.push_back({sh, org, 0, 3});
+            ms.push_back({sh, org, 1, 0});
+        }
+    auto body = [&](int64_t i) { run_far_member(ms[i].shape, ms[i].origin, ms[i].cls, ms[i].oc, false); };
+    auto describe = [&](int64_t i) { return jobj({{"shape", jstr(shapes[ms[i].shape].name)}, {"origin", jint(ms[i].origin)}, {"class", jstr(ms[i].cls ? "RobustPath" : "FlexPath")}}); };
+    auto replay_of = [&](int64_t i) { return fmt("sub=pathfar shape=%d origin=%d cls=%d oc=%d", ms[i].shape, ms[i].origin, ms[i].cls, ms[i].oc); };
+    bool ok = parallel_for(*R, (int64_t)ms.size(), body, describe, replay_of, PFOptions{60, "path.oas", true});
+    R->sample("path.oas", jobj({{"far_shape", jstr("octangular")}, {"start", jstr("(-2500, 3100)")}, {"unit", jnum(1e-6)}, {"precision", jnum(1e-12)}}));
+    R->bound("path.oas.far", fmt("OASIS only (GDSII's 32-bit coordinates cannot hold them): unit 1e-6, precision 1e-12; simple FlexPath (offset 0; two elements +1.5/-1.5) and simple RobustPath x %zu shapes (6 short shapes started at (+-2500, +-3100), 3 single steps of 3000 user units from (1,2)): centre line within 1.5 database units, width/end, region for the short shapes", shapes.size()), ok, (int64_t)ms.size());
+}
+
 // ----------------------------------------------------------------------- long simple paths (multi-record XY lists)
 // GDSII XY records hold at most 8190 points, so FlexPath::to_gds splits the centre line of a long simple path
 // over several records.  Members: zig-zag spine (0,0),(4,4),(8,0),(12,4),... with n points built by init +
@@ -1647,6 +1806,8 @@ int main(int argc, char** argv) {
             ss.pts = parse_pts(run.rarg("pts"));
             ss.kind = run.rarg("kind");
             run_manh_member(ss, atoi(run.rarg("oc").c_str()), atoi(run.rarg("end").c_str()), 0.25, true);
+        } else if (sub == "pathfar") {
+            run_far_member(atoi(run.rarg("shape").c_str()), atoi(run.rarg("origin").c_str()), atoi(run.rarg("cls").c_str()), atoi(run.rarg("oc").c_str()), true);
         } else if (sub == "pathlong") {
             run_long_member(atoi(run.rarg("n").c_str()), atoi(run.rarg("oc").c_str()), atoi(run.rarg("end").c_str()), true);
         } else {
@@ -1690,6 +1851,7 @@ int main(int argc, char** argv) {
     run_family("2pt", "every 2-point polyline of the 5x5 lattice scaled by 4, up to translation", s2, opt, 60);
     if (opt.do_c && !getenv("C07_FAM")) run_long(T);
     if (opt.do_c) run_manh(T);
+    if (opt.do_c) run_far();
     if (opt.do_c) {
         // scale_width = false: FlexPath::to_gds writes a negative WIDTH (absolute width); the record must re-load with the
         // same positive half width, scale_width == false (GDSII) and the same region for every end and source join
